@@ -990,3 +990,185 @@ def vc_bufwriter_flushed(fns, variants, work, fn_pat, tag, sig=None):
     """Every success return after BufWriter::new has flushed the writer explicitly (drop would swallow the error)."""
     return vc_must_follow(fns, variants, work, fn_pat, r"BufWriter::new$", FLUSH_PAT, tag, sig=sig,
                           what="BufWriter dropped unflushed on a success path (a write error at flush would be swallowed)")
+
+
+# ------------------------------------------------------------------------------------------ C12 / C01: start-line convention, all values
+def function_summary(fns, variants, fn_pat, sig=None):
+    """Symbolic summary of a small loop-free function: [(path condition, return value)], over parameter symbols in__1, in__2, ..."""
+    fn = find_fn(fns, fn_pat, sig)
+    out = []
+
+    def on_return(eng, st, bb):
+        v = st.store.get("_0")
+        if v is not None and isinstance(v, z3.ExprRef):
+            out.append((z3.And(*st.pc) if st.pc else z3.BoolVal(True), v))
+
+    eng = Engine(fns, fn, variants, hooks={"on_return": on_return})
+    eng.run()
+    params = []
+    for i in range(1, fn.nparams + 1):
+        params.append(eng.read_path(State0, "_%d" % i, fn.types["_%d" % i]))
+    return fn, eng, out, params
+
+
+class _S0:
+    store = {}
+
+
+State0 = _S0()
+
+
+def vc_start_line_roundtrip(fns, variants, work):
+    """For every start line 0 <= t < 2^62 and every side length: the number write_header_to prints for a side, read back by
+    parse_hunk's target_line(line, count) with the printed count, is t again; and parse_hunk pairs each side's line with
+    that side's count.  (That `{}` / FromStr round-trip integers is std's contract; C11b decides the number parser.)"""
+    # --- parser side: summary of target_line
+    fn_g, eng_g, summ, params = function_summary(fns, variants, r"^target_line$")
+    if not summ or len(params) != 2:
+        raise KeyError("parse_hunk::target_line(line, count)")
+    line_s, count_s = params
+    # --- writer side
+    fn_w = find_fn(fns, r"::write_header_to$")
+    shown = []
+
+    def on_call(eng, st, bb, site, stmt, dst, callee, args, nxt):
+        if re.search(r"Argument::<'_>::new_display::<(isize|usize)>$|Argument::new_display::<(isize|usize)>$", callee):
+            v, _, _ = eng.operand(st, args[0])
+            if isinstance(v, Ref):
+                ty = "isize" if "<isize>" in callee else "usize"
+                val = eng.read_path(st, v.target, ty)
+                n = len([k for k in st.store if k.startswith("ghost:disp")])
+                st.store["ghost:disp%d" % n] = val
+        if re.search(r"Arguments::<'_>::new::<|Arguments::new::<|Arguments::<'_>::new_v1", callee):
+            vals = [st.store.get("ghost:disp%d" % i) for i in range(4)]
+            if all(v is not None for v in vals):
+                shown.append((list(st.pc), vals))
+        return None
+
+    eng_w = Engine(fns, fn_w, variants, hooks={"on_call": on_call})
+    eng_w.run()
+    if not shown:
+        raise KeyError("the four displayed values of write_header_to")
+    hunk = eng_w.read_path(State0, "_1", fn_w.types["_1"])
+    ridx = mirvc.struct_field_index("Hunk", "remove")
+    aidx = mirvc.struct_field_index("Hunk", "add")
+    tidx = mirvc.struct_field_index("HunkPart", "target_line")
+    t_rm = eng_w.read_path(State0, "%s.%d.%d" % (hunk.target, ridx, tidx), "isize")
+    t_add = eng_w.read_path(State0, "%s.%d.%d" % (hunk.target, aidx, tidx), "isize")
+    found = []
+    solver = z3.Solver()
+    queries = 0
+    t0 = __import__("time").time()
+    LIM = z3.BitVecVal(2 ** 62 - 1, 64)
+    for pc_w, (rl, rc, al, ac) in shown:
+        for side, t, ln, cnt in (("old", t_rm, rl, rc), ("new", t_add, al, ac)):
+            pre = list(pc_w) + [t >= 0, t < LIM]
+            # the printed number must not be negative
+            solver.push(); solver.add(*pre); solver.add(ln < 0); queries += 1
+            if solver.check() == z3.sat:
+                found.append({"bb": "-", "stmt": "write_header_to", "what": "%s side: a negative line number is written" % side, "model": model_values(solver.model(), ("in_",)), "trace": []})
+            solver.pop()
+            for pc_g, ret in summ:
+                sub = [(line_s, ln), (count_s, cnt)]
+                pcg = z3.substitute(pc_g, *sub)
+                r = z3.substitute(ret, *sub)
+                solver.push(); solver.add(*pre); solver.add(pcg); solver.add(r != t); queries += 1
+                res = solver.check()
+                if res == z3.sat:
+                    found.append({"bb": "-", "stmt": "write_header_to -> target_line", "what": "%s side: start line %s is not preserved by write-then-parse" % (side, "t"),
+                                  "model": model_values(solver.model(), ("in_",)), "trace": []})
+                elif res == z3.unknown:
+                    raise RuntimeError("solver unknown")
+                solver.pop()
+    # --- wiring in parse_hunk: target_line(header.X_line, header.X_count) feeds Hunk::new's X argument
+    fn_p = find_fn(fns, r"^parse_hunk$")
+    calls = []
+    news = []
+    names = {}
+    for f in ("remove_line", "remove_count", "add_line", "add_count"):
+        names[mirvc.struct_field_index("HunkHeader", f)] = f
+    for bb, stmts in fn_p.blocks.items():
+        for s_ in stmts:
+            m = callm(s_)
+            if m and re.search(r"(^|::)target_line$", m.group(2).strip()):
+                idxs = []
+                for a in mirvc.split_top(m.group(3)):
+                    fm = re.search(r"\(_\d+\.(\d+): usize\)", a)
+                    if not fm:
+                        lm = re.search(r"(_\d+)", a)
+                        for bb2, st2 in fn_p.blocks.items():
+                            for s2 in st2:
+                                dm = re.match(r"%s = (?:copy|move) \(_\d+\.(\d+): usize\)$" % re.escape(lm.group(1)), s2) if lm else None
+                                if dm:
+                                    fm = dm
+                    idxs.append(int(fm.group(1)) if fm else -1)
+                calls.append((m.group(1), [names.get(i, "?") for i in idxs]))
+            if m and re.search(r"Hunk::<.*>::new$|Hunk::new$", mirvc_strip(m.group(2))):
+                news.append(mirvc.split_top(m.group(3)))
+    wiring_ok = (len(calls) == 2 and len(news) == 1 and calls[0][1] == ["remove_line", "remove_count"] and calls[1][1] == ["add_line", "add_count"]
+                 and re.search(r"\b%s\b" % re.escape(calls[0][0] or "?"), news[0][0] or "") and re.search(r"\b%s\b" % re.escape(calls[1][0] or "?"), news[0][1] or ""))
+    if not wiring_ok:
+        found.append({"bb": "-", "stmt": "parse_hunk", "what": "parse_hunk does not pass each side's (line, count) pair to target_line and on to Hunk::new: %s -> %s" % (calls, news), "model": {}, "trace": []})
+    r = {"queries": queries, "states": eng_w.states + eng_g.states, "paths": len(shown), "solver_s": round(__import__("time").time() - t0, 3), "blocks": len(fn_w.blocks),
+         "unroll": mirvc.UNROLL, "function": "write_header_to + parse_hunk::target_line", "writer_paths_checked": len(shown), "parser_paths_checked": len(summ),
+         "verdict": "violation" if found else "holds"}
+    if found:
+        r["candidates"] = found[:6]
+    if len(shown) < 4 or len(summ) < 2:
+        r["verdict"], r["reason"] = "inconclusive", "vacuity witness failed: fewer paths than the two-by-two empty/non-empty cases"
+    return r
+
+
+def mirvc_strip(c):
+    return strip_generics(c.strip()) if False else c.strip()
+
+
+# ------------------------------------------------------------------------------------------ C19 wiring
+def vc_parse_patch_refuses_unsafe(fns, variants, work):
+    """parse_patch: a file patch is pushed to the result only after strip() and after unsafe_filename() returned None;
+    and an Ok return happens only on such paths."""
+    fn = find_fn(fns, r"^parse_patch$")
+    found, pushes = [], [0]
+
+    def after_call(eng, st, bb, site, stmt, dst, callee, args, argv):
+        c = strip_generics(callee)
+        if c.endswith("FilePatch::strip"):
+            st.ghost = (st.ghost - {"checked"}) | {"strip"}
+            st.store.pop("ghost:unsafe_disc", None)
+        elif c.endswith("FilePatch::unsafe_filename") and dst:
+            dpath, _ = eng.resolve(st, dst)
+            st.store["ghost:unsafe_disc"] = eng.read_path(st, dpath + "#disc", "isize")
+            if "strip" in st.ghost:
+                st.ghost = st.ghost | {"checked"}
+        elif re.search(r"Result<.*> as Try>::branch$|parse_filepatch$", c) and "parse_filepatch" in c:
+            st.ghost = st.ghost - {"strip", "checked"}
+
+    def on_call(eng, st, bb, site, stmt, dst, callee, args, nxt):
+        c = strip_generics(callee)
+        if c.endswith("parse_filepatch"):
+            st.ghost = st.ghost - {"strip", "checked"}
+            st.store.pop("ghost:unsafe_disc", None)
+        if re.search(r"Vec::push$", c) and "FilePatch" in callee:
+            pushes[0] += 1
+            if "strip" not in st.ghost or "checked" not in st.ghost:
+                found.append({"bb": bb, "stmt": stmt[:160], "what": "a file patch is added to the result without strip + unsafe-name check", "model": {}, "trace": list(st.trace[-20:])})
+            else:
+                d = st.store.get("ghost:unsafe_disc")
+                ok, model = eng.feasible(st, [d != 0])
+                eng.record_query("%s push of unsafe" % bb, list(st.pc) + [d != 0])
+                if ok:
+                    found.append({"bb": bb, "stmt": stmt[:160], "what": "a file patch whose name check fired is still added to the result", "model": {}, "trace": list(st.trace[-20:])})
+        return None
+
+    eng = Engine(fns, fn, variants, hooks={"on_call": on_call, "after_call": after_call})
+    seeds = set()
+    for bb, stmts in fn.blocks.items():
+        for s_ in stmts:
+            m = callm(s_)
+            if m and strip_generics(m.group(2)).strip().endswith("FilePatch::unsafe_filename") and m.group(1):
+                seeds.add(m.group(1))
+    if not seeds:
+        raise KeyError("call of FilePatch::unsafe_filename in parse_patch")
+    eng.seeds = seeds
+    eng.run()
+    return summarize(eng, found, {"push_sites_reached": pushes[0]}, work, "c19w", witness_ok=pushes[0] > 0, witness_note="no push of a file patch reached")
